@@ -31,6 +31,7 @@ import (
 	"fmt"
 	"hash"
 	"math/big"
+	"math/bits"
 	"regexp"
 	"strings"
 
@@ -198,7 +199,7 @@ type c04Tok struct {
 	Hdr     []c04Claim `json:"hdr,omitempty"`     // additional protected header members
 	Claims  []c04Claim `json:"claims,omitempty"`
 	Ser     string     `json:"ser,omitempty"`  // compact | flat | general | general+junk
-	Tail    string     `json:"tail,omitempty"` // appended to the compact form ("-3" = cut three characters)
+	Tail    string     `json:"tail,omitempty"` // damage to the encoded signature: text appended, or "---" = that many characters cut
 }
 
 func c04ClaimJSON(c c04Claim, now int64) string {
@@ -362,6 +363,10 @@ func c04Build(keys map[string]*c04Key, tk c04Tok, now int64) (string, error) {
 			signAlg = c04NaturalAlg(k.Kind)
 		}
 		sig, err = c04Sign(k, signAlg, input)
+		if err != nil && k.Kind == "rsa" && !k.Listed {
+			// PS512 does not fit the 1024-bit modulus of the deliberately weak key; such a token is invalid whatever its signature
+			sig, err = c04Sign(k, "RS512", input)
+		}
 		if err != nil {
 			return "", err
 		}
@@ -373,6 +378,18 @@ func c04Build(keys map[string]*c04Key, tk c04Tok, now int64) (string, error) {
 		}
 	}
 	s := c04B64.EncodeToString(sig)
+	// tail damage applies to the encoded signature, whatever the serialisation ("-" = cut one character, "--" = two …)
+	switch {
+	case tk.Tail == "":
+	case strings.Trim(tk.Tail, "-") == "":
+		if n := len(tk.Tail); n < len(s) {
+			s = s[:len(s)-n]
+		} else {
+			s = ""
+		}
+	default:
+		s += tk.Tail
+	}
 	switch tk.Ser {
 	case "flat":
 		return fmt.Sprintf(`{"payload":"%s","protected":"%s","signature":"%s"}`, payload, protected, s), nil
@@ -385,18 +402,7 @@ func c04Build(keys map[string]*c04Key, tk c04Tok, now int64) (string, error) {
 		return fmt.Sprintf(`{"payload":"%s","signatures":[{"protected":"%s","signature":"%s"},{"protected":"%s","signature":"%s"}]}`,
 			payload, jp, c04B64.EncodeToString(js), protected, s), nil
 	}
-	out := protected + "." + payload + "." + s
-	switch {
-	case tk.Tail == "":
-	case strings.HasPrefix(tk.Tail, "-"):
-		n := len(tk.Tail) // "-" = 1, "--" = 2 …  (cut n characters)
-		if n < len(out) {
-			out = out[:len(out)-n]
-		}
-	default:
-		out += tk.Tail
-	}
-	return out, nil
+	return protected + "." + payload + "." + s, nil
 }
 
 // ---------------------------------------------------------------------------------------------------------------------
@@ -586,6 +592,21 @@ func c04Ref(tk c04Tok, credLen int, now int64) (verdict, reason string) {
 // ---------------------------------------------------------------------------------------------------------------------
 // generator
 
+// c04Pick draws one element of list with (nearly) equal probability. rapid.SampledFrom strongly favours the first
+// elements of a long list; composing the index from fair coin flips does not (it still shrinks towards list[0]).
+func c04Pick(t *rapid.T, label string, list []string) string {
+	nbits := bits.Len(uint(len(list)-1)) + 3
+	flips := rapid.SliceOfN(rapid.Bool(), nbits, nbits).Draw(t, label)
+	v := 0
+	for _, f := range flips {
+		v <<= 1
+		if f {
+			v |= 1
+		}
+	}
+	return list[v%len(list)]
+}
+
 func c04Weighted(t *rapid.T, label string, choices ...any) string {
 	// choices: "value", weight, "value", weight …  (first = simplest for shrinking)
 	var pool []string
@@ -594,14 +615,14 @@ func c04Weighted(t *rapid.T, label string, choices ...any) string {
 			pool = append(pool, choices[i].(string))
 		}
 	}
-	return rapid.SampledFrom(pool).Draw(t, label)
+	return c04Pick(t, label, pool)
 }
 
 const c04SampleUUID = "6f1b9c1e-58a4-4f5e-9a64-0d6a3c1f2b7e"
 
 // c04ValidTok draws a token that satisfies every documented requirement (with benign variation).
 func c04ValidTok(t *rapid.T) c04Tok {
-	signer := rapid.SampledFrom(c04ListedNames).Draw(t, "signer")
+	signer := c04Pick(t, "signer", c04ListedNames)
 	kind := c04KindOf[signer]
 	alg := c04NaturalAlg(kind)
 	if kind == "rsa" {
@@ -783,7 +804,7 @@ func c04ApplyDefect(tk *c04Tok, d string, sel int) {
 			tk.Kid = "of:" + victim // claim to be the victim's key
 		}
 	case "key:weakrsa":
-		tk.Signer, tk.Alg = "weakrsa", "PS512"
+		tk.Signer, tk.Alg = "weakrsa", "RS512" // (PS512 does not fit a 1024-bit modulus)
 		c04SetClaim(tk, c04Claim{N: "iss", K: "s", S: "mallory-weak@example.com"})
 	case "key:nocomment":
 		tk.Signer, tk.Alg = "nocomment", "EdDSA"
@@ -869,7 +890,7 @@ var c04Garbage = []string{
 func c04GenTok(t *rapid.T) (c04Tok, []string) {
 	mode := c04Weighted(t, "tokmode", "valid", 5, "one-defect", 10, "two-defects", 2, "garbage", 2)
 	if mode == "garbage" {
-		g := rapid.SampledFrom(c04Garbage).Draw(t, "garbage")
+		g := c04Pick(t, "garbage", c04Garbage)
 		if g == "@long" {
 			g = strings.Repeat("A", 5000)
 		}
@@ -879,7 +900,7 @@ func c04GenTok(t *rapid.T) (c04Tok, []string) {
 	var applied []string
 	n := map[string]int{"valid": 0, "one-defect": 1, "two-defects": 2}[mode]
 	for i := 0; i < n; i++ {
-		d := rapid.SampledFrom(c04Defects).Draw(t, "defect")
+		d := c04Pick(t, "defect", c04Defects)
 		c04ApplyDefect(&tk, d, rapid.IntRange(0, 11).Draw(t, "sel"))
 		applied = append(applied, d)
 	}
